@@ -77,3 +77,7 @@ def search(rng, binaries, log):
         if f and not classify(c, f, il, FINDINGS_ALL):
             return (c, f, il)
     return None
+
+
+def extra_checks(tier, rng, binaries, log):
+    return S.net_abrupt_checks(tier, binaries, log, ['net_driver'] + (['net_driver_tls'] if tier == 'thorough' else []), PROP)
